@@ -19,6 +19,7 @@ RC=$?
 grep -E "^(VIOLATION|KNOWN-FINDING|BROKEN|C[0-9]+ tier)" "$OUT/log" | cut -c1-220 | head -12
 grep -A3 "^VIOLATION" "$OUT/log" | head -12 | cut -c1-300
 echo "exit=$RC"
+mkdir -p /tmp/mut/replays/$PROP; cp -r "$OUT/replay/$PROP/." /tmp/mut/replays/$PROP/ 2>/dev/null; cp "$OUT/log" /tmp/mut/replays/$PROP/log 2>/dev/null
 KEY=$(python3 -c "import hashlib,sys;print('alt-'+hashlib.sha1(sys.argv[1].encode()).hexdigest()[:10])" "$WT")
 rm -rf "/verif/target/$KEY" "/verif/target/harness-$KEY" "$OUT"
 git -C /repo worktree remove --force "$WT"
